@@ -195,6 +195,19 @@ class RepoInterp:
             if key not in st.env:
                 st.env[key] = self.interp.eval(mod.constants[name], st)
             return st.env[key]
+        if name in mod.constants and self.heap and isinstance(mod.constants[name], ast.Call) and isinstance(mod.constants[name].func, ast.Name) \
+                and mod.constants[name].func.id in mod.classes:
+            # a module-level INSTANCE of a class of the module (`_collecting = _LoggedFailures("...")`): one object per run
+            key = f"__global__:{mod.name}.{name}"
+            if key not in st.env:
+                saved_ci, saved_fi = self.construct_instances, self.cur_fi
+                self.construct_instances = True
+                self.cur_fi = FunctionInfo(mod, "<module>", ast.parse("def _m(): pass").body[0])
+                try:
+                    st.env[key] = self.interp.eval(mod.constants[name], st)
+                finally:
+                    self.construct_instances, self.cur_fi = saved_ci, saved_fi
+            return st.env[key]
         if name in mod.constants:
             return fold_const(self.repo, mod, name)
         if name in mod.imports:
@@ -420,6 +433,26 @@ class RepoInterp:
                 return v_cv
         return None
 
+    def _dataclass_fields(self, ci: Any) -> Optional[List[Tuple[str, Optional[ast.AST]]]]:
+        """[(field, default expression | None)] of a class decorated with @dataclass / @dataclasses.dataclass(...), in class-body
+        order (ClassVar annotations are not fields); None if the class is not a dataclass"""
+        decos = [dotted(d.func if isinstance(d, ast.Call) else d) or "" for d in getattr(ci.node, "decorator_list", [])]
+        if not any(d.split(".")[-1] == "dataclass" for d in decos):
+            return None
+        out: List[Tuple[str, Optional[ast.AST]]] = []
+        for c in reversed(self.repo.mro(ci)):
+            for s2 in c.node.body:
+                if isinstance(s2, ast.AnnAssign) and isinstance(s2.target, ast.Name) and "ClassVar" not in norm(s2.annotation):
+                    dflt = s2.value
+                    if isinstance(dflt, ast.Call) and (dotted(dflt.func) or "").split(".")[-1] == "field":
+                        kw = {k_.arg: k_.value for k_ in dflt.keywords}
+                        dflt = kw.get("default") or (ast.Call(func=kw["default_factory"], args=[], keywords=[]) if "default_factory" in kw else None)
+                        if dflt is not None:
+                            ast.copy_location(dflt, s2)
+                            ast.fix_missing_locations(dflt)
+                    out = [(n_, d_) for n_, d_ in out if n_ != s2.target.id] + [(s2.target.id, dflt)]
+        return out
+
     # ---- id(): addresses are reused ------------------------------------------------------------------
     def model_id(self, obj: V, st: State) -> V:
         """id(x).  Within one top-level call distinct objects have distinct ids.  An object that was id()-ed during an
@@ -624,7 +657,7 @@ class RepoInterp:
             return K(t_o) if t_o is not None else None
         if fname in ("operator.attrgetter", "attrgetter", "operator.itemgetter", "itemgetter") and args and not kwargs and all(isinstance(a, K) for a in args):
             return R("accessor", what=K("attr" if fname.endswith("attrgetter") else "item"), names=K(tuple(args)))
-        if isinstance(fval, R) and fval.kind == "accessor" and fval.fields["what"].v in ("attr", "item") and isinstance(call.func, ast.Name) and len(args) == 1 and not kwargs:
+        if isinstance(fval, R) and fval.kind == "accessor" and fval.fields["what"].v in ("attr", "item") and not isinstance(call.func, ast.Attribute) and len(args) == 1 and not kwargs:
             got: List[V] = []
             for nm in fval.fields["names"].v:
                 cur: V = args[0]
@@ -714,7 +747,7 @@ class RepoInterp:
             return K(tuple([args[0]] * max(args[1].v, 0)))
         if fname in ("operator.methodcaller", "methodcaller") and args and isinstance(args[0], K) and isinstance(args[0].v, str):
             return R("accessor", what=K("method"), names=K((args[0],)), margs=K(tuple(args[1:])), mkwargs=K(tuple(sorted(kwargs.items()))))
-        if isinstance(fval, R) and fval.kind == "accessor" and fval.fields["what"] == K("method") and isinstance(call.func, ast.Name) and len(args) == 1 and not kwargs:
+        if isinstance(fval, R) and fval.kind == "accessor" and fval.fields["what"] == K("method") and not isinstance(call.func, ast.Attribute) and len(args) == 1 and not kwargs:
             # operator.methodcaller(name, *a, **kw)(obj) is obj.name(*a, **kw)
             margs = list(fval.fields["margs"].v)
             mkw = dict(fval.fields["mkwargs"].v)
@@ -930,6 +963,30 @@ class RepoInterp:
         if (self.construct_instances or priv_cls is not None) and isinstance(call.func, ast.Name) and not isinstance(fval, (R, Ref)):
             ci_new = self.repo.resolve_class(self.cur_fi.module, call.func.id)
             if ci_new is not None and self.repo.method(ci_new, "__init__") is None:
+                fields_dc = self._dataclass_fields(ci_new)
+                if fields_dc is not None:
+                    # @dataclass without an __init__ of its own: the generated one binds the arguments to the annotated
+                    # fields in class-body order, defaults from the class body; then __post_init__ if there is one
+                    attrs_dc: Dict[str, Any] = {"__class__": K(ci_new.fq)}
+                    names_dc = [n_ for n_, _ in fields_dc]
+                    if len(args) > len(names_dc) or any(k_ not in names_dc for k_ in kwargs):
+                        st.pending = st.pending or "TypeError"
+                        return U("dataclass arguments")
+                    for n_, a_ in zip(names_dc, args):
+                        attrs_dc[n_] = a_
+                    for k_, v_ in kwargs.items():
+                        attrs_dc[k_] = v_
+                    for n_, dflt in fields_dc:
+                        if n_ not in attrs_dc:
+                            if dflt is None:
+                                st.pending = st.pending or "TypeError"
+                                return U("missing dataclass argument " + n_)
+                            attrs_dc[n_] = self.interp.eval(dflt, st)
+                    obj_dc = st.alloc("obj", attrs_dc)
+                    post = self.repo.method(ci_new, "__post_init__")
+                    if post is not None:
+                        self.inline_call(post, call, obj_dc, [], {}, st)
+                    return obj_dc
                 return st.alloc("obj", {"__class__": K(ci_new.fq)})  # no __init__ in the package: a bare instance
         if self.construct_instances and isinstance(call.func, ast.Name) and call.func.id == "cls" and isinstance(st.env.get("cls"), S) \
                 and st.env["cls"].name.split(":", 1)[0] in ("class", "func", "mod"):
